@@ -4,7 +4,7 @@
 #![allow(dead_code, clippy::all)]
 mod common;
 mod sx;
-mod c18;
+include!(env!("MV_REGISTRY"));
 
 use common::Ctx;
 use std::path::PathBuf;
@@ -27,8 +27,8 @@ fn main() {
             other => { ctx.extra.push(other.to_string()); i += 1; }
         }
     }
-    match prop.as_str() {
-        "c18" => c18::run(&ctx),
-        _ => { eprintln!("unknown property {prop}"); std::process::exit(2); }
+    if !dispatch(&prop, &ctx) {
+        eprintln!("unknown property {prop}");
+        std::process::exit(2);
     }
 }
